@@ -16,13 +16,15 @@ RULE = ("Arm A (monitor inside real search): C01's Hypothesis scripts x engines 
         "40 verdicts per run. Non-trivial = verdict issued after >= 1 backtrack on a literal set different from every earlier "
         "examined set of the run; distinct by literal set.")
 RULE += (" Arm B (harness/h_theory.cc, rapidcheck, ASan/UBSan library): LASolver (LRA), Egraph (EUF), IDLSolver and RDLSolver "
-         "driven directly with the protocol of THandler/CoreSMTSolver: an atom pool over shared linear terms / a shared term "
+         "and Egraph+ArraySolver (QF_AX, scheduled as ArrayTHandler does) driven directly with the protocol of THandler/CoreSMTSolver: an atom pool over shared linear terms / a shared term "
          "pool (equalities, predicates, n-ary distinct), one backtrack point per literal, literals grouped in decision "
          "levels, backtracking to level boundaries only and by at least one level after every conflict, deductions drained "
          "after each successful check, verified and asserted back; atoms are declared up front (for LASolver also in the middle "
          "of a history, as LIA splits do). Oracle (libz3 on the currently asserted literals): a conflict from assertLit/check "
          "only on an unsatisfiable set, with an explanation made of currently asserted literals that is itself unsatisfiable; "
-         "a complete check that answers SAT only on a satisfiable set; every deduction implied by the set. Non-trivial (arm B) "
+         "a complete check that answers SAT only on a satisfiable set (not judged for arrays, whose extensionality witnesses come from "
+         "the front end); every deduction implied by the set; lemma clauses handed out by the array solver make their atoms "
+         "assertable and are never fully falsified. Non-trivial (arm B) "
          "= history with a verdict issued after >= 1 backtrack.")
 VARIANTS = ["fast", "san"]
 ASSUMPTIONS = ["z3 (+cvc5 where it can parse opensmt's numerals)", "hooked build", "integer logics: only UNSAT verdicts examined",
@@ -39,7 +41,7 @@ def prepare(tier, seed=1):
     import glob, os
     from . import hcommon
     from .. import build, harness
-    out = hcommon.run_rc_property(ID, "h_theory", ["lra", "euf", "idl", "rdl", "lra", "euf", "lra", "idl", "rdl", "lra", "euf", "lra", "idl", "rdl", "euf", "lra"], tier, seed, 1500, 40000, nproc=16, noshrink=True)
+    out = hcommon.run_rc_property(ID, "h_theory", ["lra", "euf", "idl", "rdl", "ax", "lra", "ax", "lra", "euf", "ax", "lra", "idl", "rdl", "ax", "euf", "lra"], tier, seed, 1500, 40000, nproc=16, noshrink=True)
     # saved histories (regressions of repaired defects) are replayed on every run
     for f in sorted(glob.glob(os.path.join(build.ROOT, "replays", ID, "*.txt"))):
         r = harness.run_one("h_theory", ["replay", f])
